@@ -74,6 +74,17 @@ def check(ctx):
     if na < 20:
         raise vlib.ToolFailure("live-c13key recorded %d assertions" % na)
     ctx.note_impl("departed-key-calls-with-custom-key-function", na)
+    # a caller without a time-out whose command reuses, after the 16-bit wrap, the platform serial of an answered request whose
+    # timer is still running: when the terminal leaves the caller is told
+    wr = os.path.join(ctx.scratch, "c13_wrap.ndjson")
+    r = ctx.vh(["live-c13wrap", wr], timeout=300)
+    lc.crash_check(ctx, r.returncode, r.stderr, "live-c13wrap")
+    w = vlib.read_nd(wr, quoted=False)[0]
+    ctx.cov["wrap_run"] = w
+    if w["b_kind"] != "closed" or w["b_after_close_ms"] > 2000:
+        ctx.violation("caller-stranded scenario=stale-timer-after-serial-wrap", "the caller without a time-out got '%s' %d ms after its terminal left (request A's timer fired for the same platform serial %d before)"
+                      % (w["b_kind"], w["b_after_close_ms"], w["a_seq"]), {"kind": "live-c13wrap", "observed": w})
+    ctx.note_impl("serial-wrap-no-time-out-caller-scenario", 1)
     # a terminal that never reads: its writer stuck in Write with commands outstanding, queued and refused, then EOF / reset
     st = os.path.join(ctx.scratch, "c13_stall.ndjson")
     r = ctx.vh(["live-c13stall", st], timeout=400)
